@@ -541,7 +541,6 @@ pub fn max(values: &[Value]) -> Value {
               max = *v;
             }
           }
-          Value::Null(_) => {}
           other => return invalid_argument_type!("max", "number", other.type_of()),
         }
       }
@@ -556,7 +555,6 @@ pub fn max(values: &[Value]) -> Value {
               max = v.clone();
             }
           }
-          Value::Null(_) => {}
           other => return invalid_argument_type!("max", "string", other.type_of()),
         }
       }
